@@ -1,6 +1,6 @@
 (* C07: active-connection counts match in-flight requests.  Property theorems only. *)
 From Coq Require Import List ZArith Bool.
-From Bfe Require Import lib.Val model.ConnCount proofs.ConnCountProofs.
+From Bfe Require Import lib.Val model.ConnCount proofs.ConnCountProofs run.RunC07 proofs.ConnCountTieProofs.
 Import ListNotations.
 Open Scope Z_scope.
 
@@ -39,6 +39,22 @@ Theorem C07_harness_traces_valid : forall fuel dead rm retry fwd steps choice m 
 Proof. exact simulate_valid. Qed.
 Print Assumptions C07_harness_traces_valid.
 
+(* CENTRAL THEOREM.  The property predicate the harness evaluates on the implementation's observations (prop_ops: at
+   every observation point each backend's count equals the number of requests / tunnels a backend currently holds, is
+   >= 0, status consistent with being held) accepts EVERY observation list the model produces (exec), for every program of
+   request starts, WebSocket / TLS-stream tunnels and releases over the request slots and for every way the balancer may
+   choose backends (choose is arbitrary). *)
+Theorem C07_prop_accepts_model : forall rm choose ops k h hold l,
+  rids_ok ops -> K h hold -> exec rm ops choose k h = Some l -> prop_ops ops l hold = true.
+Proof. intros rm choose. exact (prop_accepts_exec rm choose). Qed.
+Print Assumptions C07_prop_accepts_model.
+
+(* ... and in the wire form: for every well-formed input (decodes; the default-choice run does not start a request on an
+   occupied slot) outside the known-finding classes (there are none), the model's output satisfies the property. *)
+Theorem C07_prop_of_run : forall v, wf_C07 v = true -> kf_C07 v = 0 -> prop_C07 v (run_C07 v) = true.
+Proof. exact prop_of_run. Qed.
+Print Assumptions C07_prop_of_run.
+
 (* Record of the defect repaired in /repo (commit cd4c052): before the fix a HandleForward filter returning Finish left
    request.Trans.Backend set although IncConnNum had not run; FinishReq then decremented: count -1. *)
 Theorem C07_forward_finish_refuted_prefix :
@@ -59,3 +75,8 @@ Example C07_simulate_example :
   simulate 40 2 2 0 [1; 1] [1; 3] [0; 2; 1]%nat
   = Some (mkSim [BalanceOk 0; ForwardGoOn; RoundTrip 1; BalanceOk 2; ForwardGoOn; RoundTrip 1; BalanceOk 1; ForwardGoOn] 0 3 true).
 Proof. exact simulate_example. Qed.
+(* a generated-style input (two tunnels and a held GET, released in another order) is well-formed *)
+Example C07_wf_example :
+  wf_C07 (VL [VZ 3; VZ 0; VL [VL [VZ 3; VZ 0; VZ 0; VZ 0]; VL [VZ 1; VZ 1; VL []; VL [VZ 3]];
+                              VL [VZ 3; VZ 2; VZ 1; VZ 0]; VL [VZ 2; VZ 1]; VL [VZ 2; VZ 0]; VL [VZ 2; VZ 2]]]) = true.
+Proof. exact wf_example. Qed.
